@@ -244,3 +244,10 @@ _ROUND7 = {
 }
 for _k, _v in _ROUND7.items():
     META[_k]["text"] += " " + _v
+
+# dimensions added after the eighth round
+_ROUND8 = {
+    "C13": "Every call shape is also opened on a context that is already cancelled or past its deadline and the client-visible outcome class is compared with real gRPC.",
+}
+for _k, _v in _ROUND8.items():
+    META[_k]["text"] += " " + _v
